@@ -23,7 +23,14 @@ type coop struct {
 	mu     sync.Mutex
 	parked []*parkedG
 	seq    atomic.Int64
+	// spun: the goroutine released last had parked in runtime.Gosched (R10). Gosched means
+	// "let the others run", so the next pick prefers a goroutine that is not spinning: a
+	// plan that released the spinner for ever would be an unfair schedule, and what happens
+	// under an unfair schedule is no evidence against the code.
+	spun bool
 }
+
+const goschedSite = "runtime.Gosched"
 
 type parkedG struct {
 	site string
@@ -87,8 +94,20 @@ func (s *coop) take(pick int) *parkedG {
 	if pick < 0 {
 		pick = -pick
 	}
-	i := pick % len(s.parked)
+	cand := make([]int, 0, len(s.parked))
+	for i, g := range s.parked {
+		if !s.spun || g.site != goschedSite {
+			cand = append(cand, i)
+		}
+	}
+	if len(cand) == 0 {
+		for i := range s.parked {
+			cand = append(cand, i)
+		}
+	}
+	i := cand[pick%len(cand)]
 	g := s.parked[i]
+	s.spun = g.site == goschedSite
 	s.parked = append(s.parked[:i], s.parked[i+1:]...)
 	return g
 }
